@@ -246,6 +246,77 @@ func (ex *Exec) sliceLiteral(st *State, ty types.Type, vs []Val) Val {
 }
 
 func (ex *Exec) invoke(st *State, ct *callTarget, k func(*State, []Val)) {
+	if st.frame.fi == ex.top && st.frame.closure == nil && ex.top.Spec != nil && len(ex.top.Spec.Anchors) > 0 && ct.call != nil {
+		name, ord := ex.callAnchor(ct)
+		ex.runAnchors(st, "before", name, ord)
+		k0 := k
+		k = func(st *State, vs []Val) {
+			if st.frame.fi == ex.top && st.frame.closure == nil {
+				ex.runAnchors(st, "after", name, ord)
+			}
+			k0(st, vs)
+		}
+	}
+	ex.invoke1(st, ct, k)
+}
+
+// callAnchor: name of the callee and the ordinal of this call among the calls to that name in
+// the top-level function (source order).
+func (ex *Exec) callAnchor(ct *callTarget) (string, int) {
+	name := calleeName(ct.call)
+	ord := 0
+	ast.Inspect(ex.top.Decl.Body, func(n ast.Node) bool {
+		if c, ok := n.(*ast.CallExpr); ok && c != ct.call && c.Pos() < ct.call.Pos() && calleeName(c) == name {
+			ord++
+		}
+		return true
+	})
+	return name, ord
+}
+
+func calleeName(c *ast.CallExpr) string {
+	fun := ast.Unparen(c.Fun)
+	switch ix := fun.(type) {
+	case *ast.IndexExpr:
+		fun = ix.X
+	case *ast.IndexListExpr:
+		fun = ix.X
+	}
+	switch f := fun.(type) {
+	case *ast.Ident:
+		return f.Name
+	case *ast.SelectorExpr:
+		return f.Sel.Name
+	}
+	return "?"
+}
+
+func (ex *Exec) runAnchors(st *State, when, name string, ord int) {
+	for _, an := range ex.top.Spec.Anchors {
+		if an.When != when || an.Callee != name || an.Ord != ord {
+			continue
+		}
+		env := ex.specEnvFor(st, ex.top)
+		for k, v := range st.frame.ghost {
+			env.bind[k] = v
+		}
+		func() {
+			defer ex.specRecover("anchored clause in " + ex.top.Key)
+			switch an.Kind {
+			case "ghost":
+				env.ghostUpdate(an.Ghost)
+			case "assert":
+				ex.oblige(st, "assert", an.Props, env.goal(an.E), "assert "+an.Src, token.NoPos)
+				st.assume(env.boolTerm(an.E))
+			case "assume":
+				ex.w.assumed["assume in "+ex.top.FullName()+" "+when+" call "+name+": "+an.Src] = true
+				st.assume(env.boolTerm(an.E))
+			}
+		}()
+	}
+}
+
+func (ex *Exec) invoke1(st *State, ct *callTarget, k func(*State, []Val)) {
 	switch ct.kind {
 	case "builtin":
 		ex.builtin(st, ct.bname, ct.call, k)
@@ -673,7 +744,7 @@ func (ex *Exec) callContract(st *State, c *Contract, fi *FuncInfo, ct *callTarge
 	func() {
 		defer ex.specRecover("requires of " + name)
 		for _, r := range c.Requires {
-			ex.oblige(st, "pre@"+name, nil, env.boolTerm(r.E), "precondition of "+name+": "+r.Src, ct.call.Pos())
+			ex.oblige(st, "pre@"+name, nil, env.goal(r.E), "precondition of "+name+": "+r.Src, ct.call.Pos())
 		}
 	}()
 	for _, r := range c.Requires {
@@ -784,10 +855,18 @@ func (env *SpecEnv) ghostAssume(g *GhostUpd) {
 	if !ok {
 		return
 	}
-	base := env.with(env.old).eval(sel.X)
-	gf, key, gs, _ := env.ghostField(base.Go, sel.Name)
-	if gf == nil {
-		env.fail("no ghost field %s", specString(g.LHS))
+	var base Val
+	var key string
+	var gs *Sort
+	if idx, k, s, _, ok := env.with(env.old).nestedGhostPath(sel); ok {
+		base, key, gs = idx, k, s
+	} else {
+		base = env.with(env.old).eval(sel.X)
+		var gf *GhostField
+		gf, key, gs, _ = env.ghostField(base.Go, sel.Name)
+		if gf == nil {
+			env.fail("no ghost field %s", specString(g.LHS))
+		}
 	}
 	a := ex.heapGet(env.st, key, ex.w.mapGSort(sRef, gs))
 	cur := sSel(a, base.T)
@@ -1160,8 +1239,9 @@ func (ex *Exec) contractWriteKeys(ws *writeSet, c *Contract, fi *FuncInfo, calle
 
 // ---------- top-level verification of one function ----------
 
-func (ex *Exec) verifyFunc(fi *FuncInfo) {
-	c := fi.Spec
+// entryState builds the symbolic entry state of fi: fresh parameters, typing invariants,
+// the contract's requires assumed, modifies evaluated, ghostinit executed.
+func (ex *Exec) entryState(fi *FuncInfo, c *Contract) (*State, *SpecEnv) {
 	ex.top = fi
 	ex.curProps = c.Props
 	st := &State{heap: map[string]string{}}
@@ -1204,6 +1284,13 @@ func (ex *Exec) verifyFunc(fi *FuncInfo) {
 		for _, r := range c.Requires {
 			st.assume(env.boolTerm(r.E))
 		}
+		for _, u := range c.Uses {
+			lm := ex.prog.lemma(u)
+			if lm == nil {
+				panic(unsupported("unknown lemma " + u))
+			}
+			st.assume(env.boolTerm(lm.Goal))
+		}
 	}()
 	// the modifies clause, evaluated in the entry state
 	func() {
@@ -1218,6 +1305,30 @@ func (ex *Exec) verifyFunc(fi *FuncInfo) {
 			if _, ok := st.heap[k]; !ok {
 				st.heap[k] = v
 			}
+		}
+	}()
+	return st, env
+}
+
+func (p *Program) lemma(name string) *Lemma {
+	for _, ps := range p.AllSpecs {
+		for _, lm := range ps.Lemmas {
+			if lm.Name == name {
+				return lm
+			}
+		}
+	}
+	return nil
+}
+
+func (ex *Exec) verifyFunc(fi *FuncInfo) {
+	c := fi.Spec
+	st, env := ex.entryState(fi, c)
+	fr := st.frame
+	func() {
+		defer ex.specRecover("ghostinit of " + fi.Key)
+		for _, g := range c.GhostInit {
+			env.ghostUpdate(g)
 		}
 	}()
 	// vacuity guard: the precondition must be satisfiable
@@ -1270,7 +1381,7 @@ func (ex *Exec) checkPost(st *State, fi *FuncInfo, c *Contract, vals []Val) {
 		env.ghostUpdate(g)
 	}
 	for _, e := range c.Ensures {
-		ex.oblige(st, fmt.Sprintf("post%d", e.Ord), e.Props, env.boolTerm(e.E), "ensures "+e.Src, pos)
+		ex.oblige(st, fmt.Sprintf("post%d", e.Ord), e.Props, env.goal(e.E), "ensures "+e.Src, pos)
 	}
 	ex.frameObligations(st, "exit", pos)
 }
@@ -1299,7 +1410,7 @@ func (ex *Exec) checkPanic(st *State, fi *FuncInfo, c *Contract) {
 	ex.oblige(st, "panic.allowed", props, sOr(conds...), "a panic is possible here only under the contract's `panics when` condition ("+desc+")", pos)
 	if len(c.PEnsures) > 0 {
 		for _, e := range c.PEnsures {
-			ex.oblige(st, fmt.Sprintf("panic.post%d", e.Ord), e.Props, env.boolTerm(e.E), "at panic: "+e.Src, pos)
+			ex.oblige(st, fmt.Sprintf("panic.post%d", e.Ord), e.Props, env.goal(e.E), "at panic: "+e.Src, pos)
 		}
 	} else {
 		// default: a panic leaves every pre-existing location unchanged
@@ -1308,8 +1419,8 @@ func (ex *Exec) checkPanic(st *State, fi *FuncInfo, c *Contract) {
 		}
 		var goals, keys []string
 		for _, key := range sortedKeys(st.heap) {
-			if key == "alloc" || key == "arralloc" {
-				continue
+			if key == "alloc" || key == "arralloc" || strings.HasPrefix(key, "g:") {
+				continue // ghost state is not observable
 			}
 			e0, ok := ex.entry.heap[key]
 			if !ok || e0 == st.heap[key] {
